@@ -7,6 +7,7 @@ that involve external routines carry the implementation's own result as data).""
 from __future__ import annotations
 
 import math
+import threading
 import warnings
 from fractions import Fraction
 
@@ -41,7 +42,9 @@ def gen_init(rng, lo=4, hi=12):
             y[0] += 1
     int_x = rng.random() < 0.12 and all(v.denominator == 1 for v in x)
     return {"x": [str(v) for v in x], "y": [str(v) for v in y],
-            "as_list": rng.random() < 0.25, "int_x": int_x, "int_y": int_y, "x_none": rng.random() < 0.05}
+            "as_list": rng.random() < 0.25, "int_x": int_x, "int_y": int_y, "x_none": rng.random() < 0.05,
+            # the application treats warnings as errors (python -W error, pytest filterwarnings=error)
+            "werror": rng.random() < 0.15}
 
 
 def gen_domain_op(rng, allow=DOMAIN):
@@ -207,6 +210,36 @@ def build(c):
     return (lambda: Weaver(cx, cy)), [cx, cy], line
 
 
+_TL = threading.local()
+_DISPATCH = {"installed": False}
+
+
+def _install_normal_dispatcher():
+    """np.random.normal is replaced once by a dispatcher that serves the scripted draw of the CURRENT thread and is the
+    original generator for everybody else (programs run in several threads at once in the schedule dimension)"""
+    if _DISPATCH["installed"] and getattr(np.random.normal, "_twv_dispatcher", False):
+        return
+    orig = np.random.normal
+
+    def normal(loc=0.0, scale=1.0, size=None):
+        d = getattr(_TL, "draw", None)
+        if d is None:
+            return orig(loc, scale, size)
+        return d.reshape(size)
+    normal._twv_dispatcher = True
+    np.random.normal = normal
+    _DISPATCH["installed"] = True
+
+
+def _quiet():
+    """inside an operation whose NumPy / SciPy arithmetic legitimately warns (0/0 on constant data, ...): silence
+    everything - or, when the program runs with warnings as errors, only the arithmetic (RuntimeWarning) category"""
+    if getattr(_TL, "werror", False):
+        warnings.filterwarnings("ignore", category=RuntimeWarning)
+    else:
+        warnings.simplefilter("ignore")
+
+
 class Skip(Exception):
     """the operation's documented precondition is not met in the current state: drop it"""
 
@@ -233,7 +266,7 @@ def apply_op(w, op, rng_state=None):
         op["_raised"] = None
         try:
             with warnings.catch_warnings():
-                warnings.simplefilter("ignore")
+                _quiet()
                 if kind == "recreate_bad_kwarg":
                     w.recreate_from_average(op.get("n", 2), rfa_class=LinearFixedRFA, beta=0.5)
                 elif kind == "recreate_small_n":
@@ -286,7 +319,7 @@ def apply_op(w, op, rng_state=None):
     if k in ("norm_x", "norm_y"):
         lo, hi = Fraction(op["lo"]), Fraction(op["hi"])
         with warnings.catch_warnings():
-            warnings.simplefilter("ignore")
+            _quiet()
             getattr(w, "normalize_" + k[-1])(float(lo), float(hi))
         return f"wop {k.replace('_', '')} {fmt(lo)} {fmt(hi)}"
     if k == "repeat":
@@ -393,7 +426,7 @@ def apply_op(w, op, rng_state=None):
         if fpi is not None:
             kw["fixed_points_indices_in_x"] = list(fpi)
         with warnings.catch_warnings():
-            warnings.simplefilter("ignore")
+            _quiet()
             w.integral_match(target_function_integral_method=op["target"], reference_function_integral_method=op["ref"],
                              alpha=op["alpha"], fixed_points_finding_strategy=op["strategy"], **kw)
         return line
@@ -452,7 +485,7 @@ def apply_op(w, op, rng_state=None):
     if k == "smooth":
         op["_line"] = "wop smooth -"
         with warnings.catch_warnings():
-            warnings.simplefilter("ignore")
+            _quiet()
             w.smooth(op["s"])
         return f"wop smooth {fmt_list([frac(v) for v in w.y])}"
     if k == "trend":
@@ -476,13 +509,12 @@ def apply_op(w, op, rng_state=None):
         st = np.random.RandomState(op["seed"])
         draw = [Fraction(int(v), 8) for v in st.randint(-40, 41, size=n)]
         op["_line"] = f"wop noise {fmt_list(draw)}"
-        import traffic_weaver.process as proc
-        orig = np.random.normal
-        np.random.normal = lambda loc=0, scale=1, size=None: np.array(floats(draw)).reshape(size)
+        _install_normal_dispatcher()
+        _TL.draw = np.array(floats(draw))
         try:
             w.noise(op["snr"], snr_in_db=op["db"])
         finally:
-            np.random.normal = orig
+            _TL.draw = None
         return op["_line"]
     if k == "restore":
         w.restore_original()
@@ -500,6 +532,10 @@ def run_query(w, q):
         def tok(v):
             if v is None:
                 return None, "none"
+            if isinstance(v, str) and v in ("nan", "inf", "-inf"):
+                # no sample equals a NaN / an infinity: for the model any value that is not a sample
+                far = (Fraction(float(xs[-1])) if len(xs) else Fraction(0)) + 12345
+                return float(v), fmt(far)
             if isinstance(v, str) and v.startswith("@"):
                 i = int(v[1:])
                 if len(xs) == 0:
@@ -553,33 +589,48 @@ def run_program(c):
     except Exception:  # noqa
         pass
     executed = []
-    for op in c["ops"]:
-        op.pop("_line", None)
-        if op["op"] == "query":
-            line, step = run_query(w, op["query"])
-            executed.append(op)
-            lines.append(line)
-            steps.append(step)
-            continue
-        try:
-            try:
-                line = apply_op(w, op)
-            except Skip:
+    werr = bool(c.get("werror"))
+    wctx = warnings.catch_warnings()
+    wctx.__enter__()
+    try:
+        _TL.werror = werr
+        if werr:
+            warnings.simplefilter("error")
+        for op in c["ops"]:
+            op.pop("_line", None)
+            if op["op"] == "query":
+                line, step = run_query(w, op["query"])
+                executed.append(op)
+                lines.append(line)
+                steps.append(step)
                 continue
-            finally:
-                pass
-            executed.append(op)
-            st = {"ok": True, "state": snap(w, caller)}
-            if op["op"] == "fail":
-                st["fail"] = op["kind"]
-                st["raised"] = op.get("_raised")
-            steps.append(st)
-            lines.append(line)
-        except Exception as e:  # noqa
-            executed.append(op)
-            steps.append({"err": err_kind(e), "state": snap(w, caller)})
-            lines.append(op.get("_line", "wop bad"))
-            break
+            try:
+                try:
+                    line = apply_op(w, op)
+                except Skip:
+                    continue
+                finally:
+                    pass
+                executed.append(op)
+                st = {"ok": True, "state": snap(w, caller)}
+                if op["op"] == "fail":
+                    st["fail"] = op["kind"]
+                    st["raised"] = op.get("_raised")
+                steps.append(st)
+                lines.append(line)
+            except Warning as e:  # noqa: only with warnings treated as errors
+                # a warning that surfaces as an exception is a refused request: nothing may have changed
+                executed.append(op)
+                steps.append({"ok": True, "state": snap(w, caller), "warned": type(e).__name__})
+                lines.append("wop shiftx 0")
+            except Exception as e:  # noqa
+                executed.append(op)
+                steps.append({"err": err_kind(e), "state": snap(w, caller)})
+                lines.append(op.get("_line", "wop bad"))
+                break
+    finally:
+        _TL.werror = False
+        wctx.__exit__(None, None, None)
     c["ops"] = executed + [o for o in c["ops"] if o not in executed and False]
     for q in c.get("queries", []):
         line, step = run_query(w, q)
